@@ -17,6 +17,9 @@
  * e2fsck_write_bitmaps, ext2fs_flush, read_bad_blocks_file; the superblock is
  * never marked dirty by main(); s_state/s_lastcheck/s_mnt_count are not
  * touched; every open is without RW.
+ * C12 (undo): with -z the handle main() keeps is opened through undo_io_manager (set up
+ * over the unix manager with the -z file) on EVERY pass through restart:, and the
+ * passes and writers only ever act on such a handle; without -z never.
  * C20 (repairing run that completed on a valid filesystem): when the backup
  * superblock differs from the primary in features/geometry/UUID, the handle is
  * closed with EXT2_FLAG_MASTER_SB_ONLY cleared (backups get refreshed) --
@@ -128,6 +131,9 @@ static char vf_name[2] = "d", vf_prog[2] = "e", vf_undo[2] = "u";
 
 static int vf_nopens, vf_nwriters, vf_nfix, vf_nclose;
 static int vf_run_done, vf_restart_pending;
+static int vf_after_probe, vf_nundo_setup;
+static io_manager vf_handle_mgr, vf_undo_backing;
+static char *vf_undo_file;
 #define VF_RO (vf_ctx.options & E2F_OPT_READONLY)
 #ifndef RST
 #define RST 0
@@ -137,6 +143,7 @@ static int vf_run_done, vf_restart_pending;
 static void vf_writer(void)
 {
 	vf_nwriters++;
+	PROP(vf_handle_mgr == (vf_ctx.undo_file ? undo_io_manager : unix_io_manager), "every writer main() calls acts on a handle opened through the undo manager exactly when -z was given");
 	PROP(!VF_RO, "e2fsck -n: main() reaches none of its writers (journal replay/re-creation, orphan file, quota, gdt checksums, bitmaps, flush, badblocks)");
 }
 
@@ -203,8 +210,22 @@ static errcode_t stub_flush(io_channel ch) { (void) ch; return 0; }
 errcode_t ext2fs_open2(const char *name, const char *io_options, int flags, int superblock,
 		       unsigned int block_size, io_manager manager, ext2_filsys *ret_fs)
 {
-	(void) name; (void) io_options; (void) superblock; (void) block_size; (void) manager;
+	int is_probe;
+	(void) name; (void) io_options; (void) block_size;
 	vf_nopens++;
+	/* C12: which io manager gets the device.  try_open_fs() probes the block size of a -b superblock with throw-away opens on
+	 * the plain unix manager (handle freed at once); since every open succeeds here, such a probe is always followed by the
+	 * real open: they alternate while ctx->superblock is set and ctx->blocksize is not */
+	is_probe = superblock && !vf_ctx.blocksize && !vf_after_probe;
+	vf_after_probe = is_probe;
+	if (is_probe)
+		PROP(manager == unix_io_manager, "block-size probe of try_open_fs uses the plain unix manager");
+	else if (vf_ctx.undo_file) {
+		PROP(manager == undo_io_manager, "e2fsck -z: every open whose handle is kept goes through the undo io manager (on every pass through restart:)");
+		PROP(vf_undo_backing == unix_io_manager && vf_undo_file == vf_ctx.undo_file, "e2fsck -z: the undo manager was set up over the unix manager with the -z file before the open");
+	} else
+		PROP(manager == unix_io_manager && vf_nundo_setup == 0, "without -z the undo manager is never set up nor used");
+	vf_handle_mgr = manager;
 	if (VF_RO)
 		PROP(!(flags & (EXT2_FLAG_RW | EXT2_FLAG_EXCLUSIVE)), "e2fsck -n: no ext2fs_open2 call carries EXT2_FLAG_RW / EXCLUSIVE");
 	else
@@ -341,8 +362,9 @@ int check_plausibility(const char *device, int flags, int *ret_is_dev) { (void) 
 const char *error_message(long code) { (void) code; return ""; }
 const char *e2p_feature2string(int compat, unsigned int mask) { (void) compat; (void) mask; return ""; }
 const char *e2p_uuid2str(void *uu) { (void) uu; return ""; }
-errcode_t set_undo_io_backing_manager(io_manager manager) { (void) manager; return 0; }
-errcode_t set_undo_io_backup_file(char *file_name) { (void) file_name; return 0; }
+/* STUB: undo_io configuration calls record their argument (undo_io.c itself: C12 harnesses) */
+errcode_t set_undo_io_backing_manager(io_manager manager) { vf_undo_backing = manager; vf_nundo_setup++; return 0; }
+errcode_t set_undo_io_backup_file(char *file_name) { vf_undo_file = file_name; return 0; }
 int vf_open(const char *path, int oflags, ...) { (void) path; (void) oflags; return 3; }
 int vf_close(int fd) { (void) fd; return 0; }
 void e2fsck_set_bitmap_type(ext2_filsys fs, unsigned int default_type, const char *profile_name, unsigned int *old_type)
@@ -374,6 +396,7 @@ int e2fsck_run(e2fsck_t ctx)
 {
 	/* BOUND: the passes ask for a restart (E2F_FLAG_RESTART) at most once per run */
 	int first = !vf_run_done;
+	PROP(vf_handle_mgr == (vf_ctx.undo_file ? undo_io_manager : unix_io_manager), "the passes run on a handle opened through the undo manager exactly when -z was given");
 	vf_run_done = 1;
 	if (!first)
 		return IN.run_result & (E2F_FLAG_ABORT | E2F_FLAG_CANCEL);
